@@ -97,17 +97,26 @@ PROPS["C10"] = dict(
 
 PROPS["C08"] = dict(
     engine="primsim", level="exploration",
-    quick=dict(runs=64000, workers=16),
-    thorough=dict(budget_s=600, workers=16),
+    quick=dict(runs=64000, workers=16, variants=["", "netsim:reasm"]),
+    thorough=dict(budget_s=600, workers=16, variants=["", "netsim:reasm"]),
     rule="one evaluation = one seeded schedule of 1-4 tasks calling fragmentation.Process concurrently with the 8-byte-aligned fragments of 1-3 datagrams "
          "(position-keyed content; random cuts, a second overlapping cut, duplicates, withheld fragments, random arrival order), in one or two phases separated "
          "by a fake-clock jump of 29-300 s, sometimes with tiny memory limits; schedule points between the two locked sections of Process; non-trivial = at "
          "least 3 fragments injected and at least one datagram handed up; distinct = distinct hash of schedule and delivery history",
-    expected_probes=["delivered", "clock_jump", "memory_pressure", "delivered_twice_from_duplicates"],
-    real=["protocol/network/fragmentation (fragmentation.go, reassembler.go, frag_heap.go, reassembler_list.go)", "pkg/buffer (VectorisedView clone/trim)"],
+    expected_probes=["delivered", "clock_jump", "memory_pressure", "delivered_twice_from_duplicates", "datagrams_reassembled", "near_key_pairs",
+                     "fragments_with_link_padding", "overlapping_fragments", "reassembled_again_from_duplicates", "whole_datagrams", "clock_advances"],
+    real=["protocol/network/fragmentation (fragmentation.go, reassembler.go, frag_heap.go, reassembler_list.go)", "pkg/buffer (VectorisedView clone/trim)",
+          "netsim:reasm variant: protocol/network/ipv4 (HandlePacket), protocol/network/hash, stack (nic.go), protocol/transport/udp, ipv4 ICMP echo"],
     stubs=PRIM_STUBS + ["wall clock: testing/synctest fake clock (reassembly timeout)"],
-    assumptions=PRIM_ASSUME + ["this part drives the exported Process API with 32-bit keys chosen by the harness; the key derivation from IPv4 headers and the "
-                               "path from the wire are covered by the netsim part when built"],
+    assumptions=PRIM_ASSUME + ["half of the workers drive the exported Process API with 32-bit keys chosen by the harness under the controlled scheduler; the other "
+                               "half (variant netsim:reasm) send IPv4 fragments of UDP datagrams and echo requests through the link layer of one real stack: "
+                               "pairs of datagrams whose reassembly keys differ in exactly one of source (also only in the last octet), destination, protocol "
+                               "and identification, all fragments interleaved in one instant (both must come out intact, exactly as sent, at the right socket "
+                               "from the right sender), random 8-byte-aligned cuts into 2-6 fragments, duplicates, overlapping pieces of a second cut, 1-26 "
+                               "bytes of link-layer padding behind the IP total length, slow datagrams whose fragments are spread over clock advances of "
+                               "1-40 s around the 30 s timeout; a delivery must be covered by fragments received after the datagram's previous delivery and "
+                               "no longer than the timeout ago; a key is reused only after it has been idle for longer than the timeout",
+                               "memory-limit eviction is exercised at the API level only"],
     hang_is_violation=True,
     level_text="seeded exploration of concurrent and sequential fragment arrival histories against a byte-exact reference: whatever is handed up equals one "
                "original datagram, only when the fragments received since its last delivery and within the timeout cover it including the last fragment; a "
